@@ -322,14 +322,14 @@ impl System for Sys {
 
 pub fn run(tier: Tier) -> i32 {
     let rep = Report::new("C17", tier);
-    rep.set_rule("breadth-first search with state merging over the real SimpleGseMemory (snapshot/restore through the capacity-preserving hook, never Clone) for memories of 1..=3 slots (thorough 1..=4), configured PDU size 4, uniquely tagged buffers of sizes 3/4/5, ops provision(fresh|held) / new_pdu / new_frag(id) / take_frag(id) / save_frag(held context) over ids {0,1,n,n+1,255}; depth 7 (6 for 3 slots; thorough 8, 7 for 3 and 4 slots); per-transition refinement check against the bag-and-slots reference; distinct = (op, outcome)");
+    rep.set_rule("breadth-first search with state merging over the real SimpleGseMemory (snapshot/restore through the capacity-preserving hook, never Clone) for memories of 1..=3 slots (thorough 1..=4), configured PDU size 4, uniquely tagged buffers of sizes 3/4/5, ops provision(fresh|held) / new_pdu / new_frag(id) / take_frag(id) / save_frag(held context) over ids {0,1,n,n+1,255}; depth 7 (6 for 3 slots; thorough: 9 for 1 slot, 8 for 2 slots, 7 for 3 and 4 slots); per-transition refinement check against the bag-and-slots reference; distinct = (op, outcome)");
     rep.assume("held items are kept sorted (the caller's bag is unordered); the free-list order is kept exactly");
     rep.assume("when the free list is full AND the buffer is too small either error is accepted (the statement does not order them)");
     let slot_counts: Vec<usize> = if tier.thorough() { vec![1, 2, 3, 4] } else { vec![1, 2, 3] };
     for n in slot_counts {
         RxS { last: None, mem: MemS::empty(n, MAX_PDU) }.check_fidelity();
         let sys = Sys { slots: n, max_fresh: (n + 4) as u8 };
-        let depth = if tier.thorough() { if n <= 2 { 8 } else { 7 } } else if n <= 2 { 7 } else { 6 };
+        let depth = if tier.thorough() { if n == 1 { 9 } else if n == 2 { 8 } else { 7 } } else if n <= 2 { 7 } else { 6 };
         let ex = explore(&sys, &Limits { max_states: if tier.thorough() { 6_000_000 } else { 1_500_000 }, max_depth: depth }, &rep, &format!("memory-{}-slots", n));
         let k = ex.states.len();
         for i in [k / 3, k / 2, k - 1] {
